@@ -284,8 +284,8 @@ def hReduce : Handler := handler fun args =>
       match how with
       | "sum" => pure (wrap (Dask.TreeReduce.kernelReduce se (Dask.TreeReduce.sumK sk) parts))
       | "prod" => pure (wrap (Dask.TreeReduce.kernelReduce se (Dask.TreeReduce.prodK sk) parts))
-      | "max" => pure (wrap (Dask.TreeReduce.kernelReduce se (Dask.TreeReduce.maxK sk) parts))
-      | "min" => pure (wrap (Dask.TreeReduce.kernelReduce se (Dask.TreeReduce.minK sk) parts))
+      | "max" => pure (wrap (Dask.TreeReduce.daskMinMax se (Dask.TreeReduce.maxK sk) parts))
+      | "min" => pure (wrap (Dask.TreeReduce.daskMinMax se (Dask.TreeReduce.minK sk) parts))
       | "count" => match Dask.TreeReduce.daskCount se parts with
         | some n => pure (.list [.sym "ok", .int n])
         | none => pure (.list [.sym "fuel"])
@@ -308,6 +308,121 @@ def hReduceSpec : Handler := handler fun args =>
     | "min" => pure (ofCell (Dask.TreeReduce.minK sk xs))
     | "count" => pure (.int (Dask.TreeReduce.countK xs))
     | _ => none
+  | _ => none
+
+/-- rows of an indexed series: running labels `start, start+1, …` -/
+def labelled (start : Int) (cells : List (Option Int)) : List Dask.TreeReduce.LRow :=
+  cells.zipIdx.map (fun (c, i) => (start + (i : Int), c))
+
+def labelParts (parts : List (List (Option Int))) : List (List Dask.TreeReduce.LRow) :=
+  let rec go (start : Int) : List (List (Option Int)) → List (List Dask.TreeReduce.LRow)
+    | [] => []
+    | p :: ps => labelled start p :: go (start + p.length) ps
+  go 0 parts
+
+def ofPairs (l : List (Int × Int)) : SExp := .list (l.map (fun (a, b) => .list [.int a, .int b]))
+def toPairs? (e : SExp) : Option (List (Int × Int)) := do
+  (← e.toList?).mapM (fun x => match x with | .list [.int a, .int b] => some (a, b) | _ => none)
+
+def toBools? (e : SExp) : Option (List Bool) := do (← e.toList?).mapM (fun x => x.toBool?)
+def ofVC (t : List (Option Int × Nat)) : SExp := .list (t.map (fun (k, n) => .list [ofCell k, .int n]))
+def toVC? (e : SExp) : Option (List (Option Int × Nat)) := do
+  (← e.toList?).mapM (fun x => match x with | .list [k, n] => do pure ((← toCell? k), (← n.toNat?)) | _ => none)
+
+/-- `(reduce2 <how> <se> (parts…) [n|dropna])` ↦ `(ok …)` | `(raised)` | `(valueerror)`:
+    `idxmax`/`idxmin` (labels = running position), `any`/`all` (parts of booleans), `value_counts <dropna>`,
+    `nlargest`/`nsmallest <n>` (parts of valid integers) -/
+def hReduce2 : Handler := handler fun args =>
+  match args with
+  | .sym how :: se :: parts :: extra => do
+    match Dask.TreeReduce.splitEvery (← toSE? se) with
+    | none => pure (.list [.sym "raised"])
+    | some se =>
+      match how, extra with
+      | "idxmax", [] | "idxmin", [] =>
+        let better := if how == "idxmax" then Dask.TreeReduce.gtB else Dask.TreeReduce.ltB
+        match Dask.TreeReduce.daskIdx se better (labelParts (← toCellss? parts)) with
+        | some (some i) => pure (.list [.sym "ok", .int i])
+        | some none => pure (.list [.sym "valueerror"])
+        | none => pure (.list [.sym "fuel"])
+      | "any", [] | "all", [] =>
+        let k := if how == "any" then Dask.TreeReduce.anyK else Dask.TreeReduce.allK
+        let ps ← (← parts.toList?).mapM toBools?
+        match Dask.TreeReduce.kernelReduceB se k ps with
+        | some b => pure (.list [.sym "ok", SExp.ofBool b])
+        | none => pure (.list [.sym "fuel"])
+      | "value_counts", [dropna] =>
+        match Dask.TreeReduce.daskValueCounts se (← dropna.toBool?) (← toCellss? parts) with
+        | some t => pure (.list [.sym "ok", ofVC t])
+        | none => pure (.list [.sym "fuel"])
+      | "nlargest", [n] | "nsmallest", [n] =>
+        let le := if how == "nlargest" then (fun a b : Int => decide (b ≤ a)) else (fun a b : Int => decide (a ≤ b))
+        let ps ← (← parts.toList?).mapM SExp.toInts?
+        match Dask.TreeReduce.daskTopK se le (← n.toNat?) ps with
+        | some l => pure (.list [.sym "ok", .list (l.map .int)])
+        | none => pure (.list [.sym "fuel"])
+      | _, _ => none
+  | _ => none
+
+/-- `(reduce2spec <how> (cells…) [n|dropna])` ↦ pandas on the whole column: `idxmax`/`idxmin` ↦ label | `valueerror`;
+    `any`/`all`; `value_counts <dropna>` ↦ `((key count)…)` for the keys `none, lo … hi` present; `nlargest n` -/
+def hReduce2Spec : Handler := handler fun args =>
+  match args with
+  | .sym how :: xs :: extra => do
+    match how, extra with
+    | "idxmax", [] | "idxmin", [] =>
+      let better := if how == "idxmax" then Dask.TreeReduce.gtB else Dask.TreeReduce.ltB
+      match Dask.TreeReduce.idxK better (labelled 0 (← toCells? xs)) with
+      | some i => pure (.int i)
+      | none => pure (.sym "valueerror")
+    | "any", [] => pure (SExp.ofBool (Dask.TreeReduce.anyK (← toBools? xs)))
+    | "all", [] => pure (SExp.ofBool (Dask.TreeReduce.allK (← toBools? xs)))
+    | "value_counts", [dropna] =>
+      let cells ← toCells? xs
+      let dropna ← dropna.toBool?
+      let keys := cells.eraseDups
+      pure (ofVC ((keys.map (fun k => (k, Dask.TreeReduce.countKey dropna cells k))).filter (fun e => e.2 != 0)))
+    | "nlargest", [n] => pure (.list ((Dask.TreeReduce.topK (fun a b : Int => decide (b ≤ a)) (← n.toNat?) (← xs.toInts?)).map .int))
+    | "nsmallest", [n] => pure (.list ((Dask.TreeReduce.topK (fun a b : Int => decide (a ≤ b)) (← n.toNat?) (← xs.toInts?)).map .int))
+    | _, _ => none
+  | _ => none
+
+/-- function level: `(idxfn chunk <how> <start> (cells…))`, `(idxfn combine <how> ((idx value)…)…)`,
+    `(idxfn agg <how> ((idx value)…)…)` ↦ rows `((idx value)…)` | label | `valueerror` -/
+def hIdxFn : Handler := handler fun args =>
+  match args with
+  | [.sym "chunk", .sym how, .int start, xs] => do
+    let better := if how == "idxmax" then Dask.TreeReduce.gtB else Dask.TreeReduce.ltB
+    pure (ofPairs (Dask.TreeReduce.idxChunk better (labelled start (← toCells? xs))))
+  | [.sym "combine", .sym how, bs] => do
+    let better := if how == "idxmax" then Dask.TreeReduce.gtB else Dask.TreeReduce.ltB
+    pure (ofPairs (Dask.TreeReduce.idxCombine better (← (← bs.toList?).mapM toPairs?)))
+  | [.sym "agg", .sym how, bs] => do
+    let better := if how == "idxmax" then Dask.TreeReduce.gtB else Dask.TreeReduce.ltB
+    match Dask.TreeReduce.idxAgg better (← (← bs.toList?).mapM toPairs?) with
+    | some i => pure (.int i)
+    | none => pure (.sym "valueerror")
+  | _ => none
+
+/-- function level: `(mmfn chunk <max|min> <skipna> (cells…))`, `(mmfn combine <max|min> <skipna> ((cells…)…))` ↦ the
+    partial result (a list of 0 or 1 cells) of `Max.chunk` / `Max.combine` -/
+def hMmFn : Handler := handler fun args =>
+  match args with
+  | [.sym which, .sym how, sk, xs] => do
+    let sk ← sk.toBool?
+    let k := if how == "max" then Dask.TreeReduce.maxK sk else Dask.TreeReduce.minK sk
+    match which with
+    | "chunk" => pure (ofCells (Dask.TreeReduce.mmChunk k (← toCells? xs)))
+    | "combine" => pure (ofCells (Dask.TreeReduce.mmCombine k (← toCellss? xs)))
+    | _ => none
+  | _ => none
+
+/-- function level: `(vcfn chunk <dropna> (cells…))`, `(vcfn combine <dropna> (((key count)…)…))` ↦ `((key count)…)` -/
+def hVcFn : Handler := handler fun args =>
+  match args with
+  | [.sym "chunk", dropna, xs] => do pure (ofVC (Dask.TreeReduce.vcChunk (← dropna.toBool?) (← toCells? xs)))
+  | [.sym "combine", dropna, bs] => do
+    pure (ofVC (Dask.TreeReduce.vcCombine (← dropna.toBool?) (← (← bs.toList?).mapM toVC?)))
   | _ => none
 
 /-! ### C43 / C42 -/
@@ -386,6 +501,7 @@ def table : List (String × Handler) := [
   ("rollblockwise", hRollBlockwise), ("fillu", hFillU), ("fillspec", hFillSpec),
   ("pipe", hPipe), ("pipespec", hPipeSpec),
   ("treeshape", hTreeShape), ("reduce", hReduce), ("reducespec", hReduceSpec),
+  ("reduce2", hReduce2), ("reduce2spec", hReduce2Spec), ("idxfn", hIdxFn), ("vcfn", hVcFn), ("mmfn", hMmFn),
   ("opteval", hOptEval), ("optcheck", hOptCheck), ("metaof", hMetaOf)]
 
 def main : IO Unit := runDriver table
